@@ -21,6 +21,8 @@ type c13Decl struct {
 	N     int               `long:"num"`
 	B     bool              `long:"bb"`
 	M     map[string]string `long:"mm"`
+	Gamma string            `long:"Delta"`
+	Delta string            `long:"gamma"`
 	NoIni string            `long:"ni" no-ini:"yes"`
 	Grp   c13Grp            `group:"Grp" namespace:"g"`
 	Cmd   c13Cmd            `command:"cmd"`
@@ -43,6 +45,8 @@ var c13Opts = []c13Opt{
 	{"Beta", "X", "g.cross", "", 1, 0},
 	{"", "Cs", "cs", "c", 2, 1},
 	{"", "Ci", "ci", "", 2, 2},
+	{"", "Gamma", "Delta", "", 0, 0}, // its long name is another option's field name
+	{"", "Delta", "gamma", "", 0, 0},
 }
 
 // refIniLookup: which option does `key` denote among the candidates, by the
@@ -94,9 +98,9 @@ func H_C13_equiv(v *V) {
 	header := ""
 	switch section {
 	case 0:
-		cands = []int{0, 1, 2, 3, 4, 5, 6, 7}
+		cands = []int{0, 1, 2, 3, 4, 5, 10, 11, 6, 7}
 	case 1:
-		cands = []int{0, 1, 2, 3, 4, 5, 6, 7}
+		cands = []int{0, 1, 2, 3, 4, 5, 10, 11, 6, 7}
 		header = []string{"[Application Options]", "[application options]", "[APPLICATION OPTIONS]", "[ Application Options ]"}[v.Choice(4)]
 	case 2:
 		cands = []int{6, 7}
@@ -166,7 +170,7 @@ func H_C13_equiv(v *V) {
 		v.Reach("as-defaults")
 	}
 	same := v.EqStr(a.Alpha, b.Alpha) && v.EqStr(a.Beta, b.Beta) && v.EqStrs(a.L, b.L) && a.N == b.N && a.B == b.B &&
-		v.EqStr(a.Grp.Gs, b.Grp.Gs) && v.EqStr(a.Grp.X, b.Grp.X) && v.EqStrs(a.Cmd.Cs, b.Cmd.Cs) && a.Cmd.Ci == b.Cmd.Ci
+		v.EqStr(a.Gamma, b.Gamma) && v.EqStr(a.Delta, b.Delta) && v.EqStr(a.Grp.Gs, b.Grp.Gs) && v.EqStr(a.Grp.X, b.Grp.X) && v.EqStrs(a.Cmd.Cs, b.Cmd.Cs) && a.Cmd.Ci == b.Cmd.Ci
 	v.Assert(same, "each entry selects the same option and stores the same value as the corresponding flag; repeated entries accumulate")
 	v.Assert(len(a.M) == len(b.M), "map entries accumulate like repeated flags")
 	for k, x := range b.M {
